@@ -8,7 +8,7 @@
    values); counter values are uint64 (N), report values int64 (Z, wrap64). *)
 From Coq Require Import List ZArith NArith Bool.
 From Tele Require Import Lib.Bytes Lib.Str Lib.Assoc Model.Config Model.ApprovalSpec Model.Report
-  Proofs.ConfigFacts Proofs.AggregateFacts Proofs.ReportFacts Proofs.ReportOracle.
+  Proofs.ConfigFacts Proofs.AggregateFacts Proofs.ReportFacts Proofs.ReportOracle Proofs.ReportOracleSound.
 Import ListNotations.
 From Coq Require Import String. Open Scope string_scope. Open Scope Z_scope. Open Scope list_scope.
 
@@ -162,6 +162,22 @@ Theorem C01_local_oracle : forall gate u cfgver week lastweek x files local up,
   local_check files local = [].
 Proof. exact local_check_model. Qed.
 Print Assumptions C01_local_oracle.
+
+(* What acceptance by the oracle MEANS, for any report (in particular the
+   implementation's): same header; each build once; every program an approved
+   build of some file, every counter a plain counter with a configured
+   counter entry of rate >= X whose value is the TRUE sum over the build's
+   files, every stack likewise by its title; every file of an approved build
+   has its program present with every counter all of whose configured rates
+   are >= X. *)
+Theorem C01_oracle_sound : forall u files local up,
+  report_ok u files local up = true ->
+  header_ok local up = true /\
+  NoDup (map fst (r_programs up)) /\
+  (forall p, In p (r_programs up) -> prog_ok u files (r_x local) p) /\
+  (forall f, In f files -> present_ok u (r_x local) (r_programs up) f).
+Proof. exact report_ok_sound. Qed.
+Print Assumptions C01_oracle_sound.
 
 (* ---- Known findings, as witnesses in the model (both confirmed on the real
    code by the correspondence suite, classes rate-table-shared / value-wrap).
